@@ -32,6 +32,14 @@ EntLenAt(cs, i) ==       \* length of the entity starting at i, 0 if none
     IF \E e \in 1..Len(Ent) : MatchAt(cs, i, Ent[e])
     THEN Len(Ent[CHOOSE e \in 1..Len(Ent) : MatchAt(cs, i, Ent[e])]) ELSE 0
 
+\* An entity cut by the ellipsis of a trimmed link text (urlize trims the escaped URL):
+\* a proper prefix of an entity directly followed by "...".  It cannot form markup.
+CutEntLenAt(cs, i) ==
+    IF \E e \in 1..Len(Ent) : \E n \in 1..(Len(Ent[e]) - 1) : MatchAt(cs, i, SubSeq(Ent[e], 1, n) \o <<46, 46, 46>>)
+    THEN LET e == CHOOSE e \in 1..Len(Ent) : \E n \in 1..(Len(Ent[e]) - 1) : MatchAt(cs, i, SubSeq(Ent[e], 1, n) \o <<46, 46, 46>>)
+         IN CHOOSE n \in 1..(Len(Ent[e]) - 1) : MatchAt(cs, i, SubSeq(Ent[e], 1, n) \o <<46, 46, 46>>)
+    ELSE 0
+
 \* length of ` name="` at i (space, one or more letters / - / :, then ="), 0 if none
 AttrStartLenAt(cs, i) ==
     IF i <= Len(cs) /\ cs[i] = cSP
@@ -84,7 +92,10 @@ Delta(cs, st, i) ==
               ELSE [st |-> "aval", i |-> i + 1, act |-> "AttrChar"]
          [] st = "atext" ->
               IF MatchAt(cs, i, AClose) THEN [st |-> "text", i |-> i + Len(AClose), act |-> "CloseAnchor"]
-              ELSE IF c = cAMP THEN (IF el > 0 THEN [st |-> "atext", i |-> i + el, act |-> "Entity"] ELSE Rej)
+              ELSE IF c = cAMP THEN (IF el > 0 THEN [st |-> "atext", i |-> i + el, act |-> "Entity"]
+                                     ELSE IF CutEntLenAt(cs, i) > 0
+                                          THEN [st |-> "atext", i |-> i + CutEntLenAt(cs, i), act |-> "CutEntity"]
+                                     ELSE Rej)
               ELSE IF IsRawMeta(c) THEN Rej
               ELSE [st |-> "atext", i |-> i + 1, act |-> "TextChar"]
          \* attribute-list mode (xmlattr): ( name="V")*
@@ -133,8 +144,11 @@ JsonOf(a) ==
 HtmlSafeJson(cs) == \A k \in 1..Len(cs) : cs[k] \notin {cLT, cGT, cAMP, cSQ}
 
 (* ------------------------------------------------------------- 3. xmlattr *)
-\* characters that would end the attribute name (HTML attribute-name state)
-KeyRejected(c) == c \in {cSP, cTAB, cLF, 12, 47, cGT, 61}
+\* characters that could leave the attribute name: the documented rule (no spaces,
+\* / > =) with "space" read as ASCII whitespace -- tab, LF, FF and blank end the name in
+\* the HTML attribute-name state, CR is turned into LF by HTML input preprocessing, VT
+\* is whitespace for every SGML/XML-era consumer
+KeyRejected(c) == c \in {cSP, cTAB, cLF, 11, 12, cCR, 47, cGT, 61}
 BadKey(cs) == \E k \in 1..Len(cs) : KeyRejected(cs[k])
 
 XmlAttr(pairs, autospace) ==
